@@ -211,6 +211,23 @@ func EmitPackage(set *Set, pkg *Package, checks int) (helper, test string) {
 			}
 		}
 	}
+	// request/response messages the compiler generates for methods with inline field lists:
+	// <Service><Method>Request / <Service><Method>Response, fields and tags exactly as written in the method
+	for _, f := range pkg.Files {
+		for _, d := range f.Defs {
+			if d.Kind != DefService && d.Kind != DefSubservice {
+				continue
+			}
+			for _, m := range d.Methods {
+				if len(m.InputFields) > 0 {
+					msgs = append(msgs, &Def{Kind: DefMessage, Name: d.Name + Camel(m.Name) + "Request", Fields: m.InputFields})
+				}
+				if len(m.OutputFields) > 0 {
+					msgs = append(msgs, &Def{Kind: DefMessage, Name: d.Name + Camel(m.Name) + "Response", Fields: m.OutputFields})
+				}
+			}
+		}
+	}
 	// ---- registry ----
 	for _, d := range enums {
 		fmt.Fprintf(&reg, "\tltest.Register(&ltest.Desc{Key: %q, Kind: ltest.KEnum, Values: []int32{", pkg.ID+"."+d.Name)
